@@ -34,7 +34,7 @@ func init() {
 		modes: func(tier string, seed int64) []modeSpec {
 			n := 640
 			if tier == "thorough" {
-				n = 16000
+				n = 48000
 			}
 			chaos := []string{"VERIF_HOOK=chaos", "VERIF_HOOK_PROB=35", "VERIF_HOOK_MAXUS=40", "VERIF_HOOK_LOCKUS=150"}
 			return []modeSpec{
